@@ -32,7 +32,7 @@ func init() {
 		Tech:        "static analysis: request-shape analysis (constant-folded struct-literal fields, SQL constants tokenised), guarded-by-condition, lock-state dataflow, interface method-set and who-writes checks across all Metastore implementations",
 		NeedU1:      true,
 		NeedU2:      true,
-		Rules:       []func(*Ctx){ruleC13InsertOnly, ruleC13NoOtherWrites, ruleC13StoreResult, ruleC13ConsistentReads, ruleC13FieldFidelity, ruleC13KeyFidelity, ruleC13DecodeIntoFresh, ruleC13MemoryLatestByKey, ruleC13ReadsHitBackend, ruleC13NothingOnlyWhenAbsent, ruleC13ProjectionCoversRecord, ruleC13LatestFirstOfOneQuery, ruleC13RecordLiteralsComplete, ruleC13QueryUnfilteredAndPerCall, ruleC13LatestQueryKeyedByIDAlone, ruleC13OneLookupUnderTheRequestedID, ruleC13LatestNotSeededByConstant, ruleC13RowUsedOnlyWhenPresent, presizedThenAppendedRule("C13", pkgPersist, pkgDynV1, pkgDynV2), errorsPropagateRule("C13", 10, c13ErrExempt, pkgPersist, pkgDynV1, pkgDynV2), lockBalancedRule("C13", 3, lockDomSpec{pkgPersist, "MemoryMetastore", "RWMutex"}), ruleC13SidecarMetastoreWiring, ruleC13DecodedRecordComplete, ruleC13KMSInputNotModified, ruleC18Tags},
+		Rules:       []func(*Ctx){ruleC13InsertOnly, ruleC13NoOtherWrites, ruleC13StoreResult, ruleC13ConsistentReads, ruleC13FieldFidelity, ruleC13KeyFidelity, ruleC13DecodeIntoFresh, ruleC13MemoryLatestByKey, ruleC13ReadsHitBackend, ruleC13NothingOnlyWhenAbsent, ruleC13ProjectionCoversRecord, ruleC13LatestFirstOfOneQuery, ruleC13RecordLiteralsComplete, ruleC13QueryUnfilteredAndPerCall, ruleC13LatestQueryKeyedByIDAlone, ruleC13OneLookupUnderTheRequestedID, ruleC13LatestNotSeededByConstant, ruleC13RowUsedOnlyWhenPresent, presizedThenAppendedRule("C13", pkgPersist, pkgDynV1, pkgDynV2), errorsPropagateRule("C13", 10, c13ErrExempt, pkgPersist, pkgDynV1, pkgDynV2), lockBalancedRule("C13", 3, lockDomSpec{pkgPersist, "MemoryMetastore", "RWMutex"}), ruleC13SidecarMetastoreWiring, ruleC13DecodedRecordComplete, ruleC13KMSInputNotModified, ruleC18Tags, ruleC13RequestsNameTheConfiguredTable, ruleC19OptionComparedToItsOwnChoices},
 	})
 }
 
